@@ -8,34 +8,38 @@ Local Open Scope Z_scope.
 Lemma k_open_src st path st1 f :
   k_open st path true false false false false = (st1, inl f) ->
   st1 = st /\ fd_rd f = true /\ fd_wr f = false /\ fd_pos f = O /\
-  (fd_dir f = false -> exists c, get (root st) (fd_path f) = Some (NFile c)).
+  (fd_dir f = false -> exists d nm c, resolve st true path = WAt d nm (Some SFile) /\ fd_path f = d ++ [nm] /\
+                                      get (root st) (fd_path f) = Some (NFile c)).
 Proof.
   unfold k_open. cbn [andb negb orb].
   destruct (resolve st true path) as [e|d nm [[| |t]|]|d dot] eqn:R; intro H; inversion H; subst; clear H;
     cbn [fd_rd fd_wr fd_pos fd_dir fd_path]; repeat split; auto; try discriminate.
-  intros _. apply resolve_at_some in R. apply sget_some_get in R as (n & G & S).
-  destruct n; try discriminate. eauto.
+  intros _. pose proof R as R0. apply resolve_at_some in R. apply sget_some_get in R as (n & G & S).
+  destruct n; try discriminate. eauto 7.
 Qed.
 
-(* the creating, truncating open of the destination *)
+(* the creating open of the destination (no O_TRUNC): a fresh empty file, or the regular file that is there *)
 Lemma k_open_dst st path excl st2 f :
-  k_open st path false true true excl true = (st2, inl f) ->
-  exists d nm es,
-    fd_path f = d ++ [nm] /\ fd_dir f = false /\ fd_wr f = true /\ fd_pos f = O /\
+  k_open st path false true true excl false = (st2, inl f) ->
+  exists d nm es k,
+    resolve st (negb excl) path = WAt d nm k /\
+    fd_path f = d ++ [nm] /\ fd_dir f = false /\ fd_wr f = true /\ fd_rd f = false /\ fd_pos f = O /\
     get (root st) d = Some (NDir es) /\
-    (get (root st) (d ++ [nm]) = None \/ exists c, get (root st) (d ++ [nm]) = Some (NFile c)) /\
-    st2 = set_root st (upd (root st) (d ++ [nm]) (Some (NFile []))).
+    ((k = None /\ get (root st) (d ++ [nm]) = None /\
+      st2 = set_root st (upd (root st) (d ++ [nm]) (Some (NFile [])))) \/
+     (excl = false /\ k = Some SFile /\ (exists c, get (root st) (d ++ [nm]) = Some (NFile c)) /\ st2 = st)).
 Proof.
   unfold k_open. cbn [andb negb orb].
   destruct (resolve st (negb excl) path) as [e|d nm [[| |t]|]|d dot] eqn:R; try discriminate.
   - destruct excl; [discriminate|]. intro H. inversion H; subst; clear H.
-    apply resolve_at_some in R. apply sget_some_get in R as (n & G & S). destruct n; try discriminate.
-    destruct (get_below_dir (root st) d nm [] _ G) as [es Gd].
-    exists d, nm, es. cbn [fd_rd fd_wr fd_pos fd_dir fd_path]. repeat split; eauto.
+    pose proof R as R0. apply resolve_at_some in R. apply sget_some_get in R as (n & G & S). destruct n; try discriminate.
+    destruct (get_below_dir _ d nm [] _ G) as [es Gd].
+    exists d, nm, es, (Some SFile). cbn [fd_rd fd_wr fd_pos fd_dir fd_path]. repeat split; eauto.
+    right. repeat split; eauto.
   - unfold parent_is_dir. destruct (sget (root st) d) as [[| |t]|] eqn:S; try discriminate.
     intro H. inversion H; subst; clear H. apply sget_dir_get in S as [es Gd].
-    apply resolve_at_none in R.
-    exists d, nm, es. cbn [fd_rd fd_wr fd_pos fd_dir fd_path]. repeat split; eauto.
+    pose proof R as R0. apply resolve_at_none in R.
+    exists d, nm, es, None. cbn [fd_rd fd_wr fd_pos fd_dir fd_path]. repeat split; eauto.
 Qed.
 
 Lemma overwrite_empty d : overwrite [] 0 d = d.
@@ -60,81 +64,106 @@ Proof.
     rewrite get_app, Gs in Gd. destruct u; simpl in Gd; discriminate.
 Qed.
 
-Section Copy.
-  Variables (st : state) (src dst : str) (fie : bool) (st' : state) (b : bool).
-  Hypothesis Hc : f_copy st src dst fie = (st', b).
+Lemma cpath_eqb_refl a : cpath_eqb a a = true.
+Proof. unfold cpath_eqb. rewrite is_prefix_refl. reflexivity. Qed.
 
-  (* either nothing happened, or the destination was written: the source is the regular file at
-     ps with bytes c, the destination file is at pd and now holds what could be copied *)
-  Lemma copy_cases :
-    (b = false /\ st' = st) \/
-    (exists ps c d nm es,
-        get (root st) ps = Some (NFile c) /\ get (root st) d = Some (NDir es) /\
-        (get (root st) (d ++ [nm]) = None \/ exists c', get (root st) (d ++ [nm]) = Some (NFile c')) /\
-        ((ps <> d ++ [nm] /\ b = true /\ st' = set_root st (upd (root st) (d ++ [nm]) (Some (NFile c)))) \/
-         (ps = d ++ [nm] /\ b = Nat.eqb (length c) 0 /\ st' = set_root st (upd (root st) (d ++ [nm]) (Some (NFile [])))))).
-  Proof.
-    unfold f_copy in Hc.
-    destruct (k_open st src true false false false false) as [st1 [fs|e]] eqn:O1.
-    2:{ left. inversion Hc; subst. split; auto. eapply k_open_err_same; eauto. }
-    destruct (k_open_src _ _ _ _ O1) as (-> & Rd & Wr & P0 & Gf).
-    destruct (fd_dir fs) eqn:D. { left. inversion Hc; auto. }
-    destruct (Gf eq_refl) as [c Gs].
-    unfold k_lseek, content_at in Hc. rewrite Gs in Hc. rewrite !Z.add_0_r in Hc.
-    destruct (Z.of_nat (length c) <? 0) eqn:C1; [apply Z.ltb_lt in C1; lia|].
-    rewrite C1 in Hc.
-    cbn [Z.of_nat Z.add Z.ltb Z.compare Z.to_nat fd_path fd_pos fd_rd fd_wr fd_dir] in Hc.
-    destruct (k_open st dst false true true fie true) as [st2 [fd2|e]] eqn:O2.
-    2:{ left. inversion Hc; subst. split; auto. eapply k_open_err_same; eauto. }
-    destruct (k_open_dst _ _ _ _ _ O2) as (d & nm & es & Pd & Dd & Wd & Qd & Gd & Gp & ->).
-    right. exists (fd_path fs), c, d, nm, es. repeat split; auto.
-    unfold k_sendfile in Hc. cbn [fd_path fd_pos fd_rd fd_wr fd_dir root set_root] in Hc.
-    rewrite D, Dd, Rd, Wd, Pd, Qd in Hc. cbn [orb negb] in Hc.
+Lemma cpath_eqb_false a b : a <> b -> cpath_eqb a b = false.
+Proof. intro N. destruct (cpath_eqb a b) eqn:E; auto. apply cpath_eqb_true in E. contradiction. Qed.
+
+(* File::copy, exactly: either it says false and nothing at all has changed, or it says true, the
+   source text leads (through links) to a regular file with bytes c, the destination text leads
+   to a different place dd/nd whose parent exists and where there was nothing or (without
+   failIfExists) a regular file, and the tree afterwards is the tree before with a regular file
+   holding exactly c at that place *)
+Lemma copy_exact st src dst fie st' b :
+  f_copy st src dst fie = (st', b) ->
+  (b = false /\ st' = st) \/
+  (b = true /\
+   exists ds ns c dd nd kd es,
+     resolve st true src = WAt ds ns (Some SFile) /\ get (root st) (ds ++ [ns]) = Some (NFile c) /\
+     resolve st (negb fie) dst = WAt dd nd kd /\ (kd = None \/ (fie = false /\ kd = Some SFile)) /\
+     get (root st) dd = Some (NDir es) /\ ds ++ [ns] <> dd ++ [nd] /\
+     st' = set_root st (upd (root st) (dd ++ [nd]) (Some (NFile c)))).
+Proof.
+  intro Hc. unfold f_copy in Hc.
+  destruct (k_open st src true false false false false) as [st1 [fs|e]] eqn:O1.
+  2:{ left. inversion Hc; subst. split; auto. eapply k_open_err_same; eauto. }
+  destruct (k_open_src _ _ _ _ O1) as (-> & Rd & Wr & P0 & Gf).
+  destruct (fd_dir fs) eqn:D. { left. inversion Hc; auto. }
+  destruct (Gf eq_refl) as (ds & ns & c & Rs & Ps & Gs).
+  unfold k_lseek, content_at in Hc. rewrite Gs in Hc. rewrite !Z.add_0_r in Hc.
+  destruct (Z.of_nat (length c) <? 0) eqn:C1; [apply Z.ltb_lt in C1; lia|].
+  rewrite C1 in Hc.
+  cbn [Z.of_nat Z.add Z.ltb Z.compare Z.to_nat fd_path fd_pos fd_rd fd_wr fd_dir] in Hc.
+  destruct (k_open st dst false true true fie false) as [st2 [fd2|e]] eqn:O2.
+  2:{ left. inversion Hc; subst. split; auto. eapply k_open_err_same; eauto. }
+  destruct (k_open_dst _ _ _ _ _ O2) as (d & nm & es & kd & Rdst & Pd & Dd & Wd & Rdd & Qd & Gd & Cd).
+  unfold same_file in Hc. cbn [fd_path] in Hc. rewrite Pd in Hc.
+  destruct (cpath_eq_dec (fd_path fs) (d ++ [nm])) as [E|N].
+  - (* the destination is the source itself: refused, and it was not created, so nothing changed *)
+    rewrite E, cpath_eqb_refl in Hc. left. inversion Hc; subst. split; auto.
+    destruct Cd as [(_ & Gn & _)|(_ & _ & _ & X)]; auto. rewrite E in Gs. congruence.
+  - rewrite (cpath_eqb_false _ _ N) in Hc. right.
+    assert (Gp : get (root st) (d ++ [nm]) = None \/ exists c', get (root st) (d ++ [nm]) = Some (NFile c')).
+    { destruct Cd as [(_ & Gn & _)|(_ & _ & X & _)]; auto. }
+    destruct (file_unrelated _ _ _ _ _ _ Gs Gd Gp N) as [U1 U2].
     assert (Gnew : get (upd (root st) (d ++ [nm]) (Some (NFile []))) (d ++ [nm]) = Some (NFile [])).
     { rewrite <- (app_nil_r (d ++ [nm])) at 2. erewrite get_upd_here by eauto. reflexivity. }
+    assert (T : k_ftruncate0 st2 fd2 = set_root st (upd (root st) (d ++ [nm]) (Some (NFile [])))).
+    { unfold k_ftruncate0. rewrite Pd. destruct Cd as [(_ & Gn & ->)|(_ & _ & [c' X] & ->)].
+      - cbn [root set_root]. rewrite Gnew. rewrite set_root_twice, upd_upd_same. reflexivity.
+      - rewrite X. reflexivity. }
+    rewrite T in Hc. unfold k_sendfile in Hc. cbn [fd_path fd_pos fd_rd fd_wr fd_dir root set_root] in Hc.
+    rewrite D, Dd, Rd, Wd, Pd, Qd in Hc. cbn [orb negb] in Hc.
     rewrite Gnew in Hc. rewrite Nat2Z.id in Hc. rewrite overwrite_empty in Hc. rewrite upd_upd_same in Hc.
     unfold content_at in Hc. cbn [skipn] in Hc.
-    destruct (cpath_eq_dec (fd_path fs) (d ++ [nm])) as [E|N].
-    - right. rewrite E in Hc. rewrite Gnew in Hc. cbn [firstn length] in Hc.
-      destruct (length c) as [|k] eqn:L.
-      + cbn [firstn length Z.of_nat Z.eqb] in Hc. inversion Hc; subst. auto.
-      + cbn [firstn length] in Hc. inversion Hc; subst. repeat split; auto.
-    - left. destruct (file_unrelated _ _ _ _ _ _ Gs Gd Gp N) as [U1 U2].
-      rewrite get_upd_unrelated in Hc by auto. rewrite Gs in Hc. rewrite firstn_all in Hc.
-      rewrite Z.eqb_refl in Hc. inversion Hc; subst. auto.
-  Qed.
-End Copy.
+    rewrite get_upd_unrelated in Hc by auto. rewrite Gs in Hc. rewrite firstn_all in Hc.
+    rewrite Z.eqb_refl in Hc. inversion Hc; subst. split; auto.
+    rewrite Ps in *.
+    exists ds, ns, c, d, nm, kd, es. repeat split; auto.
+    destruct Cd as [(K & _)|(F & K & _)]; auto.
+Qed.
 
-(* success: the destination holds exactly the source's bytes, the source keeps them *)
+Lemma copy_success_exact st src dst fie st' :
+  f_copy st src dst fie = (st', true) ->
+  exists ds ns c dd nd kd es,
+    resolve st true src = WAt ds ns (Some SFile) /\ get (root st) (ds ++ [ns]) = Some (NFile c) /\
+    resolve st (negb fie) dst = WAt dd nd kd /\ (kd = None \/ (fie = false /\ kd = Some SFile)) /\
+    get (root st) dd = Some (NDir es) /\ ds ++ [ns] <> dd ++ [nd] /\
+    st' = set_root st (upd (root st) (dd ++ [nd]) (Some (NFile c))).
+Proof.
+  intro H. destruct (copy_exact _ _ _ _ _ _ H) as [[X _]|[_ X]]; [discriminate|exact X].
+Qed.
+
+(* success: the destination holds exactly the source's bytes, the source keeps them, and no other
+   place changes kind (the older, weaker reading of copy_exact) *)
 Lemma copy_success_bytes st src dst fie st' :
   f_copy st src dst fie = (st', true) ->
   exists ps pd c, get (root st) ps = Some (NFile c) /\
                   get (root st') pd = Some (NFile c) /\ get (root st') ps = Some (NFile c) /\
                   (forall q, is_prefix pd q = false -> sget (root st') q = sget (root st) q).
 Proof.
-  intro H. destruct (copy_cases _ _ _ _ _ _ H) as [[X _]|(ps & c & d & nm & es & Gs & Gd & Gp & C)]; [discriminate|].
-  assert (Gpd : forall c0, get (upd (root st) (d ++ [nm]) (Some (NFile c0))) (d ++ [nm]) = Some (NFile c0)).
-  { intro c0. rewrite <- (app_nil_r (d ++ [nm])) at 2. erewrite get_upd_here by eauto. reflexivity. }
-  exists ps, (d ++ [nm]), c. split; auto.
-  destruct C as [(N & _ & ->)|(E & B & ->)]; cbn [root set_root].
-  - destruct (file_unrelated _ _ _ _ _ _ Gs Gd Gp N) as [U1 U2].
-    repeat split; auto.
-    + rewrite get_upd_unrelated; auto.
-    + intros q P. apply sget_upd_other; auto. destruct d; discriminate.
-  - symmetry in B. apply Nat.eqb_eq in B. destruct c; [|discriminate]. subst ps.
-    repeat split; auto. intros q P. apply sget_upd_other; auto. destruct d; discriminate.
+  intro H. destruct (copy_exact _ _ _ _ _ _ H) as [[X _]|(_ & ds & ns & c & d & nm & kd & es & Rs & Gs & Rd & K & Gd & N & ->)];
+    [discriminate|].
+  assert (Gp : get (root st) (d ++ [nm]) = None \/ exists c', get (root st) (d ++ [nm]) = Some (NFile c')).
+  { destruct K as [->|[_ ->]].
+    - left. eapply resolve_at_none; eauto.
+    - right. apply resolve_at_some in Rd. apply sget_some_get in Rd as (n & G & S). destruct n; try discriminate. eauto. }
+  destruct (file_unrelated _ _ _ _ _ _ Gs Gd Gp N) as [U1 U2].
+  exists (ds ++ [ns]), (d ++ [nm]), c. cbn [root set_root]. repeat split; auto.
+  - rewrite <- (app_nil_r (d ++ [nm])) at 2. erewrite get_upd_here by eauto. reflexivity.
+  - rewrite get_upd_unrelated; auto.
+  - intros q P. apply sget_upd_other; auto. destruct d; discriminate.
 Qed.
 
-(* failure: no name exists afterwards that did not exist before *)
+(* failure: nothing at all has changed - in particular copy(f, f) leaves f as it is *)
+Lemma copy_failure_unchanged st src dst fie st' :
+  f_copy st src dst fie = (st', false) -> st' = st.
+Proof.
+  intro H. destruct (copy_exact _ _ _ _ _ _ H) as [[_ X]|[X _]]; [exact X|discriminate].
+Qed.
+
 Lemma copy_failure_no_new_names st src dst fie st' :
   f_copy st src dst fie = (st', false) ->
   forall q, sget (root st') q <> None -> sget (root st) q <> None.
-Proof.
-  intro H. destruct (copy_cases _ _ _ _ _ _ H) as [[_ ->]|(ps & c & d & nm & es & Gs & Gd & Gp & C)]; auto.
-  destruct C as [(_ & X & _)|(E & B & ->)]; [discriminate|]. cbn [root set_root]. subst ps.
-  intros q S. destruct (is_prefix (d ++ [nm]) q) eqn:P.
-  - apply is_prefix_true in P as [t ->]. destruct t as [|x t].
-    + rewrite app_nil_r. unfold sget. rewrite Gs. discriminate.
-    + exfalso. apply S. unfold sget. erewrite get_upd_here by eauto. reflexivity.
-  - rewrite sget_upd_other in S; auto. destruct d; discriminate.
-Qed.
+Proof. intro H. rewrite (copy_failure_unchanged _ _ _ _ _ H). auto. Qed.
